@@ -13,8 +13,6 @@ inductive EncType | label | oneHot | both | other
 abbrev VocabStoi := List (Str × Int)
 abbrev VocabItos := List (Int × Str)
 
-def nopSym : Str := "[nop]".toList
-
 /-- `letter = [0] * n; letter[index] = 1` with Python's negative-index rule -/
 def oneHotRow (n : Nat) (index : Int) : Py (List Nat) :=
   if 0 ≤ index ∧ index < n then .ok ((List.replicate n 0).set index.toNat 1)
